@@ -8,7 +8,7 @@ from harness import chars, core, drivers, findings, tlc
 
 L1 = ['a', 'b', 'sp', '.', 'flD', 'flE', 'cb', 'selD', 'selE']
 L2 = ['a', 'sp', 'flD', 'flF', 'cb', 'selF', 'babD', 'olD', 'eol', 'olsF', 'eols', 'fn', 'nl']
-L3 = ['a', 'b', 'sp', 'flD', 'cb', 'fn', 'add', 'selD', 'lb', 'uk', 'ob']
+L3 = ['a', 'b', 'sp', 'flD', 'cb', 'fn', 'add', 'selD', 'lb', 'uk', 'ob', 'fnm', 'it']
 LALL = sorted(set(L1 + L2 + L3))
 OPTS = {'pack': 'xcolor,listings,amsmath,babel,amsthm'}
 MAINS = ['en-GB', 'de-DE', '']
@@ -66,7 +66,7 @@ def splitter_phase(c, tier):
         n = 5 if q else 6
         cfg = tlc.cfg_text(constants={'MaxToks': n, 'Thresh': thresh, 'OldDesign': False},
                            invariants=['EachOnce', 'RightLabel', 'InOrder', 'Dump'], properties=['Terminates'])
-        r = c.tlc('Linear.tla: all token lists of <= %d tokens, threshold %d (each character once, right label, termination)' % (n, thresh), 'Linear', cfg, timeout=1800)
+        r = c.tlc('Linear.tla: all token lists of <= %d tokens, threshold %d (each character once, right label, termination)' % (n, thresh), 'Linear', cfg, timeout=1800, extra=('-lncheck', 'final'))
         scen = r.json('@@')
         c.rng.shuffle(scen)
         cases = [dict(id='sp%d.%d' % (thresh, k), toks=s['toks'], thresh=thresh) for k, s in enumerate(scen[:6000 if q else 60000])]
